@@ -941,3 +941,19 @@ func csNest(p *PCSeqBody, i int) bool {
 func csNested(p *PCSeqBody) bool {
 	return p.CSeq.Offs == p.V.Offs && p.CSeq.Len > 0 && fend(p.CSeq) <= int(p.Method.Offs) && p.Method.Len > 0 && fend(p.Method) == fend(p.V)
 }
+
+// ---- URI parameter / header list comparison (C15) ----
+
+func pno(l *URIParamsLst) int {
+	if l.N > len(l.Params) {
+		return len(l.Params)
+	}
+	return l.N
+}
+
+func hno(l *URIHdrsLst) int {
+	if l.N > len(l.Hdrs) {
+		return len(l.Hdrs)
+	}
+	return l.N
+}
